@@ -10,7 +10,7 @@ CONSTANTS MaxHost, MaxText
 VARIABLES kind, host, port, text
 vars == <<kind, host, port, text>>
 
-HostChars == {"a", ".", "1", "-"}
+HostChars == {"a", ".", "1", "-", "A"}      \* (host names keep their case)
 TextChars == {"a", ":", "1", "0"}
 Ports == {1, 9, 10, 80, 8080, 65535}
 
